@@ -14,7 +14,7 @@ import (
 )
 
 func init() {
-	register("C07", "Decides the structural basis of 'every committed write reaches every live query it affects' in livesql: the dependency is registered (tracker + reactive) before the query is executed, on every path, inside the cached computation; registerDependency always adds to the tracker and to the reactive graph and its cleanup removes it; processBinlog tests every registered resource under the tracker lock and invalidates on a match; shouldInvalidate consults both the before and the after image of every delta and invalidates on update.err; an undecodable rows event is turned into an update carrying the table and the error and is delivered (update.err has a writer; no path from a decode error other than 'unknown table' / 'database closed' skips the send); the event-kind table covers WRITE/UPDATE/DELETE v1+v2 with after-only / both / before-only deltas, update rows paired (i, i+1) behind the even-length test; binlog rows are decoded with the column pairing of C13 and column maps are dropped when the table id changes; Tester.Test compares every filter column. Not decided: agreement of the in-memory tester with SQL WHERE for every type and value, binlog delivery/ordering, MySQL itself.", c07)
+	register("C07", "Decides the structural basis of 'every committed write reaches every live query it affects' in livesql: the dependency is registered (tracker + reactive) before the query is executed, on every path, inside the cached computation; registerDependency always adds to the tracker and to the reactive graph and its cleanup removes it; processBinlog tests every registered resource under the tracker lock and invalidates on a match, no update (whatever it carries) returns before that loop, and the consumer goroutine of RunPollLoop hands every received update to it; shouldInvalidate consults both the before and the after image of every delta and invalidates on update.err; an undecodable rows event is turned into an update carrying the table and the error and is delivered (update.err has a writer; no path from a decode error other than 'unknown table' / 'database closed' skips the send); the event-kind table covers WRITE/UPDATE/DELETE v1+v2 with after-only / both / before-only deltas, update rows paired (i, i+1) behind the even-length test; binlog rows are decoded with the column pairing of C13 and only when their column count equals the expected one exactly and column maps are dropped when the table id changes; Tester.Test compares every filter column. Not decided: agreement of the in-memory tester with SQL WHERE for every type and value, binlog delivery/ordering, MySQL itself.", c07)
 	register("C10", "Decides structural conditions of batched-select transparency in sqlgen: in the batch function both the filters and the fetched rows are normalised with the column Valuer (the same normaliser makeWhere and the row tester use) before building the statement and before matching; result i belongs to item i (matcher ids are the induction index of the items, results indexed by the id returned by match, one output per item in order); makeBatchQuery contributes one tuple per filter with placeholders and arguments in lock step, extracted with the group's own column list, with the documented match-all short-circuit for an empty filter; batching is used only without options, outside a transaction and with batching on the context, after the limit check, sharded by table. Not decided: equality of returned rows for all table contents, MySQL collation and coercion.", c10)
 }
 
@@ -695,7 +695,22 @@ func c10(c *an.Ctx) {
 			}
 			o.Site(i)
 			ms, ok := ia.X.(*ssa.MakeSlice)
-			if !ok || an.Expr(ms.Len) != "len("+fn.Params[1].Name()+")" {
+			sized := false
+			if ok {
+				if lc, isCall := ms.Len.(*ssa.Call); isCall {
+					if bi, isB := lc.Call.Value.(*ssa.Builtin); isB && bi.Name() == "len" {
+						// len(items), or the length of a list built with one entry per item
+						if lc.Call.Args[0] == ssa.Value(fn.Params[1]) {
+							sized = true
+						} else {
+							al := newAlignment(fn)
+							al.infer(nil)
+							sized = al.aligned(lc.Call.Args[0], fn.Params[1])
+						}
+					}
+				}
+			}
+			if !sized {
 				o.FailAt(i, "the per-item result list is not sized len(items)")
 			}
 			idx := an.Expr(ia.Index)
@@ -822,12 +837,36 @@ func c10(c *an.Ctx) {
 		}
 		// args appended with the whole tuple wherever placeholders are written
 		nArgs := 0
+		// the argument list, identified by role: what flows into the second result
+		argFlow := map[ssa.Value]bool{}
+		var back func(v ssa.Value)
+		back = func(v ssa.Value) {
+			if v == nil || argFlow[v] {
+				return
+			}
+			argFlow[v] = true
+			switch x := v.(type) {
+			case *ssa.Phi:
+				for _, e := range x.Edges {
+					back(e)
+				}
+			case *ssa.Call:
+				if b, ok := x.Call.Value.(*ssa.Builtin); ok && b.Name() == "append" {
+					back(x.Call.Args[0])
+				}
+			}
+		}
+		for _, e := range an.Exits(fn, false) {
+			if ret, ok := e.(*ssa.Return); ok && len(ret.Results) == 2 {
+				back(ret.Results[1])
+			}
+		}
 		an.Instrs(fn, func(i ssa.Instruction) {
 			call, ok := i.(*ssa.Call)
 			if !ok {
 				return
 			}
-			if b, ok := call.Call.Value.(*ssa.Builtin); ok && b.Name() == "append" && strings.HasPrefix(an.Expr(call.Call.Args[0]), "phi:args") {
+			if b, ok := call.Call.Value.(*ssa.Builtin); ok && b.Name() == "append" && argFlow[call] {
 				nArgs++
 				o.Site(i)
 				if isSingleElementSlice(call.Call.Args[1]) {
